@@ -110,6 +110,169 @@ def gen_cases(ctx, rng):
     return cases
 
 
+# ---- cylindrical and radial grids ----------------------------------------------------------------
+def run_cyl(grid, mask):
+    from pde import ScalarField
+    from scipy import ndimage
+    from droplets.image_analysis import locate_droplets_in_mask
+    with lc.Recorder() as rec:
+        try:
+            em = locate_droplets_in_mask(ScalarField(grid, mask, dtype=bool))
+            exc = None
+        except Exception as e:  # noqa
+            em, exc = None, f"{type(e).__name__}: {e}"
+    nz = grid.shape[1]
+    lab_pad, _ = ndimage.label(np.pad(mask, [[0, 0], [nz, nz]], mode="wrap"))
+    lab, _ = ndimage.label(mask)
+    if exc:
+        return em, exc, lab_pad, lab, None, None, None
+    if rec.log:
+        r = rec.log[0]
+        cands = [(float(p[2]), v, rad) for p, v, rad, _ in r["cands"]]
+        return em, None, lab_pad, lab, cands, r["out"], r["M"]
+    cands = [(float(d.position[2]), float(d.volume), float(d.radius)) for d in em]
+    return em, None, lab_pad, lab, cands, list(range(len(cands))), None
+
+
+def cyl_case_lit(grid, lab_pad, lab, cands, out, M):
+    cl = vlib.listlit([f"({vlib.qlit(z)}, {vlib.qlit(v / np.pi)})" for z, v, _ in cands])
+    rad = vlib.listlit([r for _, _, r in cands], vlib.qlit)
+    D = vlib.listlit([vlib.listlit(row, vlib.qlit) for row in (M.tolist() if M is not None else [])])
+    nat = lambda i: f"{int(i)}%nat"
+    return ("{| cy_grid := %s; cy_lab_pad := %s; cy_lab := %s; cy_cands := %s; cy_rad := %s; cy_D := %s; cy_out := %s |}"
+            % (lc.cyl_lit(grid), vlib.listlit(lab_pad.ravel().tolist(), nat), vlib.listlit(lab.ravel().tolist(), nat),
+               cl, rad, D, vlib.listlit(out, nat)))
+
+
+def gen_cyl_cases(ctx, rng):
+    from pde import CylindricalSymGrid
+    cases = []
+    # exhaustive tiny cylinders
+    for (nr, nz) in [(1, 3), (2, 2), (2, 3)] + ([] if ctx.quick else [(2, 4), (3, 3)]):
+        for per in (False, True):
+            grid = CylindricalSymGrid(float(nr), (0.0, float(nz)), (nr, nz), periodic_z=per)
+            for bits in range(1 << (nr * nz)):
+                mask = np.array([(bits >> i) & 1 for i in range(nr * nz)], bool).reshape(nr, nz)
+                cases.append((grid, mask, "exhaustive"))
+    for _ in range(ctx.scale(250, 3000)):
+        nr, nz = rng.randrange(1, 6), rng.randrange(2, 9)
+        dr, dz = rng.choice([0.5, 1.0, 1.0, 2.0]), rng.choice([0.25, 0.5, 1.0, 1.0])
+        zlo = rng.randrange(-8, 9) / 2.0
+        grid = CylindricalSymGrid(nr * dr, (zlo, zlo + nz * dz), (nr, nz), periodic_z=rng.random() < 0.6)
+        kind = rng.choice(["noise", "noise", "axis", "offaxis", "span", "symmetric"])
+        m = np.zeros((nr, nz), bool)
+        nrng = np.random.default_rng(rng.randrange(1 << 30))
+        if kind == "noise":
+            m = nrng.random((nr, nz)) < rng.choice([0.3, 0.5, 0.7])
+        elif kind == "axis":
+            for _ in range(rng.randrange(1, 3)):
+                z0 = rng.randrange(nz)
+                for z in range(z0, z0 + rng.randrange(1, 4)):
+                    m[:rng.randrange(1, nr + 1), z % nz] = True
+        elif kind == "offaxis":
+            if nr > 1:
+                m[1:, :] = nrng.random((nr - 1, nz)) < 0.5
+        elif kind == "span":
+            m[0, :] = True
+            m |= nrng.random((nr, nz)) < 0.3
+        else:  # components straddling the periodic boundary symmetrically
+            k = rng.randrange(1, max(2, nz // 2))
+            m[:rng.randrange(1, nr + 1), :k] = True
+            m[:rng.randrange(1, nr + 1), nz - k:] = True
+        cases.append((grid, m, kind))
+    return cases
+
+
+def gen_rad_cases(ctx, rng):
+    from pde import PolarSymGrid, SphericalSymGrid
+    cases = []
+    for n in range(1, 7):
+        for cls in (PolarSymGrid, SphericalSymGrid):
+            grid = cls(float(n), n)
+            for bits in range(1 << n):
+                cases.append((grid, np.array([(bits >> i) & 1 for i in range(n)], bool), "exhaustive"))
+    for _ in range(ctx.scale(100, 1000)):
+        n = rng.randrange(1, 20)
+        cls = rng.choice((PolarSymGrid, SphericalSymGrid))
+        dr = rng.choice([0.25, 0.5, 1.0, 2.0])
+        rlo = rng.choice([0.0, 0.0, 0.5, 2.0])
+        grid = cls((rlo, rlo + n * dr), n)
+        nrng = np.random.default_rng(rng.randrange(1 << 30))
+        m = nrng.random(n) < rng.choice([0.4, 0.7, 0.9])
+        if rng.random() < 0.5:
+            m[: rng.randrange(0, n + 1)] = True
+        cases.append((grid, m, "random"))
+    return cases
+
+
+def run_sym_streams(ctx, rng, ok, fails, known_hits):
+    from pde import ScalarField
+    from droplets.image_analysis import locate_droplets_in_mask
+    # ---- cylindrical
+    lits, meta = [], []
+    for grid, mask, kind in gen_cyl_cases(ctx, rng):
+        em, exc, lab_pad, lab, cands, out, M = run_cyl(grid, mask)
+        inp = {"family": "cylindrical", "shape": list(grid.shape), "bounds": [list(map(float, b)) for b in grid.axes_bounds],
+               "periodic_z": bool(grid.periodic[1]), "mask": mask.astype(int).ravel().tolist()}
+        ctx.case(inp, nontrivial=bool(mask[0].any()))
+        ctx.count("cyl_kind", kind)
+        ctx.count("cyl_periodic", bool(grid.periodic[1]))
+        if exc:
+            fails.append({"what": f"locate_droplets_in_mask raised {exc}", "input": inp})
+            continue
+        ctx.count("cyl_droplets", len(em))
+        for cls, desc in lc.oracle_cyl(grid, mask, em, cands, out):
+            if cls in KNOWN_CLASSES and (KNOWN_CLASSES[cls] != "F29" or bool(grid.periodic[1])):
+                known_hits.setdefault(cls, {"what": desc, "input": inp})
+            else:
+                fails.append({"what": f"{cls}: {desc}", "input": inp})
+        lits.append(cyl_case_lit(grid, lab_pad, lab, cands, out, M))
+        meta.append(inp)
+    header = ("From Coq Require Import QArith ZArith List.\nImport ListNotations.\n"
+              "From PD Require Import Model.Grid Model.Locate Model.LocateSym Model.LocateCases.\nLocal Open Scope Q_scope.\n")
+    if ok:
+        bad = vlib.run_cases(ctx, "cyl", header, lits, "cyl_agree", shard=250)
+        for b in bad[:3]:
+            ctx.broken.append(f"correspondence locate_droplets_in_mask (cylindrical): model and implementation differ on {meta[b]}")
+    ctx.sample(meta[len(meta) // 2])
+    # ---- radial
+    lits, meta = [], []
+    for grid, mask, kind in gen_rad_cases(ctx, rng):
+        inp = {"family": type(grid).__name__, "n": int(grid.shape[0]), "bounds": list(map(float, grid.axes_bounds[0])),
+               "mask": mask.astype(int).tolist()}
+        ctx.case(inp, nontrivial=bool(mask[0]))
+        ctx.count("radial_family", type(grid).__name__)
+        try:
+            em = locate_droplets_in_mask(ScalarField(grid, mask, dtype=bool))
+        except Exception as e:  # noqa
+            fails.append({"what": f"locate_droplets_in_mask raised {type(e).__name__}: {e}", "input": inp})
+            continue
+        rlo, rhi = grid.axes_bounds[0]
+        dr = (rhi - rlo) / grid.shape[0]
+        # property text: the component containing the innermost cell (if any) gives one droplet at the origin whose
+        # radius is the outer radius of that component; nothing else is reported
+        n_in = 0
+        while n_in < len(mask) and mask[n_in]:
+            n_in += 1
+        if n_in == 0:
+            if len(em) != 0:
+                fails.append({"what": "droplet reported although no component touches the origin", "input": inp})
+        elif len(em) != 1 or abs(em[0].radius - (rlo + n_in * dr)) > 1e-12 * (1 + rhi) or np.any(em[0].position != 0):
+            fails.append({"what": f"expected one droplet of radius {rlo + n_in * dr} at the origin, got {[(list(d.position), d.radius) for d in em]}", "input": inp})
+        out = f"(Some {vlib.qlit(em[0].radius)})" if len(em) else "None"
+        lits.append("{| rd_lo := %s; rd_dr := %s; rd_mask := %s; rd_out := %s |}"
+                    % (vlib.qlit(rlo), vlib.qlit(dr), vlib.listlit(mask.tolist(), vlib.blit), out))
+        meta.append(inp)
+    if ok:
+        bad = vlib.run_cases(ctx, "radial", header, lits, "rad_agree", shard=400)
+        for b in bad[:3]:
+            ctx.broken.append(f"correspondence locate_droplets_in_mask (radial): model and implementation differ on {meta[b]}")
+
+
+# failure classes of the cylindrical oracle that are matched against known_findings.json
+KNOWN_CLASSES = {"position is not the volume-weighted centre of mass": "F27", "overlap": "F29", "winding volume": "F29"}
+
+
 def check(ctx: vlib.Ctx) -> int:
     rng = random.Random(ctx.seed)
     ok = vlib.prove(ctx, ["Proofs/C02.vo", "Model/LocateCases.vo"], gens=[])
@@ -150,6 +313,15 @@ def check(ctx: vlib.Ctx) -> int:
         bad = vlib.run_cases(ctx, "cart", header, lits, "loc_agree", shard=250)
         for b in bad[:3]:
             ctx.broken.append(f"correspondence locate_droplets_in_mask (Cartesian): model and implementation differ on {meta[b]}")
+    known_hits = {}
+    run_sym_streams(ctx, rng, ok, fails, known_hits)
+    listed = {e["id"] for e in vlib.load_known() if e.get("property") == "C02" and e.get("kind") == "finding"}
+    for cls, hit in known_hits.items():
+        fid = KNOWN_CLASSES[cls]
+        if fid in listed:
+            ctx.known_printed.append(f"[{fid}] cylindrical grid: {cls}: {hit['what']} on {hit['input']}")
+        else:
+            fails.append({"what": f"{cls}: {hit['what']}", "input": hit["input"]})
     for f in fails[:3]:
         ctx.violations.append({**f, "found": True, "broken": ctx.broken[:3]})
     return vlib.finish(ctx, "", TRUSTED, ASSUME, RULE, exhaustive=True)
